@@ -524,9 +524,12 @@ def gen_schema(r, depth=0):
         sub = [gen_schema(r, depth + 2) if r.random() < 0.5 else r.choice([{"required": ["a"]}, {"minimum": 1}, {"pattern": "^a"}, {}])
                for _ in range(r.choice([1, 2]))]
         s[k] = sub[0] if k == "not" else sub
-    if r.random() < 0.06:
-        s["x-kubernetes-validations"] = r.choice([[{"rule": "true"}], [{"rule": "self == self", "message": "m"}], [{"rule": "self.a =="}],
-                                                  [{"rule": ""}], [{"rule": "1"}], [{"rule": "true", "messageExpression": "'m' +"}], [], None])
+    if r.random() < 0.15:
+        s["x-kubernetes-validations"] = r.choice(XV_RULES + [[{"rule": "true"}], [{"rule": "self.a =="}], [{"rule": "true", "messageExpression": "'m' +"}], [], None])
+    if t == "string" and r.random() < 0.3:
+        s["maxLength"] = r.choice([8, 64, 0])
+    if t == "object" and r.random() < 0.15:
+        s["maxProperties"] = r.choice([1, 5])
     return s
 
 
@@ -702,6 +705,48 @@ def schema_corpus():
                         p2["default"] = default
                     files = {"manifest.yaml": schema_manifest({"type": "object", "properties": {"p": p2}}), "a.yaml": obj_yaml("a", {A_PHASE: "deploy"})}
                     out.append(({"target": "pipeline", "render": render_sc(files, {"p": {"a": 1}})}, "ScOpaque"))
+    return out
+
+
+XV_RULES = [
+    [{"rule": "self.size() >= 0"}], [{"rule": "self == self", "message": "m"}], [{"rule": "self.size() > 0", "message": "must not be empty"}],
+    [{"rule": "has(self.a)"}], [{"rule": "self.all(x, x == x)"}], [{"rule": "true"}, {"rule": "self == self"}],
+    [{"rule": "self =="}], [{"rule": "self.nope.nope == 1"}], [{"rule": "1"}], [{"rule": ""}],
+    [{"rule": "self == oldSelf"}], [{"rule": "self.size() >= 0", "messageExpression": "'m' + string(self.size())"}],
+    [{"rule": "self.size() >= 0", "messageExpression": "1 +"}], [{"rule": "self == self", "reason": "FieldValueInvalid", "fieldPath": ".a"}],
+]
+
+
+def xvalidations_corpus():
+    """x-kubernetes-validations rules at every position the cost estimation distinguishes: root, a property, the items of
+    a list with / without maxItems, the values of a map with / without maxProperties, nested lists; element types string
+    (with / without maxLength), object, array."""
+    out = []
+    elems = [{"type": "string", "maxLength": 64}, {"type": "string"}, {"type": "integer"},
+             {"type": "object", "properties": {"a": {"type": "string", "maxLength": 8}}},
+             {"type": "array", "maxItems": 3, "items": {"type": "string", "maxLength": 8}}, {"type": "array", "items": {"type": "string"}}]
+    for rules in XV_RULES:
+        for elem in elems:
+            e = dict(elem, **{"x-kubernetes-validations": rules})
+            schemas = [
+                {"type": "object", "x-kubernetes-validations": rules, "properties": {"a": elem}},
+                {"type": "object", "properties": {"a": e}},
+                {"type": "object", "properties": {"a": {"type": "array", "items": e}}},
+                {"type": "object", "properties": {"a": {"type": "array", "maxItems": 5, "items": e}}},
+                {"type": "object", "properties": {"a": {"type": "object", "additionalProperties": e}}},
+                {"type": "object", "properties": {"a": {"type": "object", "maxProperties": 5, "additionalProperties": e}}},
+                {"type": "object", "properties": {"a": {"type": "array", "items": {"type": "array", "maxItems": 2, "items": e}}}},
+                {"type": "object", "properties": {"a": {"type": "array", "maxItems": 2, "items": {"type": "object", "additionalProperties": e}}}},
+                {"type": "object", "additionalProperties": e},
+                {"type": "array", "items": e},
+            ]
+            for schema in schemas:
+                files = {"manifest.yaml": schema_manifest(schema), "a.yaml": obj_yaml("a", {A_PHASE: "deploy"})}
+                out.append(({"target": "pipeline", "render": render_sc(files, {})}, "ScOpaque"))
+    # the same through kubectl package validate / tree for a sample (validate sees the manifest before admission)
+    for k, (sc, _) in enumerate(list(out)):
+        if k % 7 == 0:
+            out.append(({"target": "cli", "cmd": "validate" if k % 2 == 0 else "tree", "render": sc["render"]}, "ScOpaque"))
     return out
 
 
@@ -1110,7 +1155,43 @@ KEYS = ["", ".", "..", "{", "}", "{}", "{.}", "{.a", ".a}", ".data.k", "{.data.k
 DESTS = ["", ".", ".x", "x", "..", ".a.b", ".a..b", "ä", ".ä", " ", ". x", ".x.", "...", ".data.k", "\x00", "." * 300, ".a" * 300]
 
 
+SOURCE2 = {"apiVersion": "v1", "kind": "ConfigMap", "metadata": {"name": "src", "namespace": "ns1", "labels": {CACHE_LABEL: "True"}},
+           "data": {"k": "v"},
+           "spec": {"empty": [], "one": [{"host": "h1", "port": 1}], "two": [{"host": "h1", "port": 1}, {"host": "h2", "port": 2}],
+                    "scalars": [1, 2, 3], "emap": {}, "map": {"x": {"host": "hx"}, "y": {"host": "hy"}}, "null": None, "str": "s",
+                    "nested": [[], [1], [1, 2]], "deep": {"a": {"b": {"endpoints": []}}}}}
+# jsonpath expressions by what they select on SOURCE2: nothing, one value, several values, or an error
+RESULT_KEYS = [
+    ".spec.empty[*]", ".spec.empty[*].host", "{.spec.empty[*]}", "spec.empty[*]", ".spec.one[*]", ".spec.one[*].host", ".spec.two[*]", ".spec.two[*].host",
+    ".spec.absent[*]", ".spec.absent", "..host", "..nomatch", "..port", "..endpoints", "..endpoints[*]", "..empty", "..empty[*]",
+    ".spec.two[?(@.port==1)]", ".spec.two[?(@.port==99)]", ".spec.two[?(@.port>0)]", ".spec.two[?(@.host==\"h2\")].port", ".spec.empty[?(@.port==1)]",
+    ".spec.one[?(@.nope)]", ".spec.two[0:0]", ".spec.two[5:]", ".spec.two[0:2]", ".spec.two[-1:]", ".spec.two[1]", ".spec.two[2]", ".spec.scalars[*]",
+    ".spec.scalars[0:0]", ".spec.scalars[?(@>5)]", ".spec.emap.*", ".spec.map.*", ".spec.map.*.host", ".spec.emap", ".spec.null", ".spec.null[*]",
+    ".spec.str[*]", ".spec.nested[*]", ".spec.nested[0][*]", ".spec.nested[*][*]", ".spec.nested[0]", ".spec.deep..endpoints[*]", ".spec.*", ".*",
+    "..*", ".spec.two[*]['host','port']", ".spec['empty','one']", ".spec.empty", ".spec.one", ".spec.two", ".metadata.labels.*", ".data.*",
+]
+
+
+def source_results_corpus():
+    """Source item keys that select nothing, one value and several values, directly and through the real controller."""
+    out = []
+    for key in RESULT_KEYS:
+        for dest in (".x", ".a.b"):
+            out.append(({"target": "template-source", "items": [{"key": key, "destination": dest}], "object": SOURCE2}, "ScOpaque"))
+        ot = {"apiVersion": "package-operator.run/v1alpha1", "kind": "ObjectTemplate", "metadata": {"name": "t", "namespace": "ns1", "generation": 1},
+              "spec": {"template": "apiVersion: v1\nkind: ConfigMap\nmetadata:\n  name: out\ndata: {k: \"{{ toJson .config }}\"}\n",
+                       "sources": [{"apiVersion": "v1", "kind": "ConfigMap", "name": "src", "items": [{"key": key, "destination": ".x"}]}]}}
+        out.append(({"target": "template-reconcile", "template": ot, "store": [SOURCE2]}, "ScOpaque"))
+    return out
+
+
 def gen_template_source(r):
+    if r.random() < 0.3:
+        obj = SOURCE2 if r.random() < 0.7 else damage_json(r, SOURCE2)
+        if not isinstance(obj, dict):
+            obj = {"spec": obj}
+        items = [{"key": r.choice(RESULT_KEYS), "destination": r.choice([".x", ".a.b", ".x", "x", ""])} for _ in range(r.choice([1, 1, 2]))]
+        return {"target": "template-source", "items": items, "object": obj}, "ScOpaque"
     if r.random() < 0.45:
         d = r.choice(DESTS)
         if modelable(d) and "\n" not in d:
@@ -1134,7 +1215,7 @@ def gen_template_reconcile(r):
         "apiVersion: v1\nkind: ConfigMap\nmetadata:\n  name: out\n  labels: {a: {b: c}}\n", "{{ fail \"x\" }}", "{{ toYAML . }}",
     ])
     src = {"apiVersion": "v1", "kind": "ConfigMap", "name": "src",
-           "items": [{"key": r.choice(KEYS[:12] + [".data.k"] * 6), "destination": r.choice(DESTS[:8] + [".x"] * 4)}]}
+           "items": [{"key": r.choice(KEYS[:12] + [".data.k"] * 6 + RESULT_KEYS), "destination": r.choice(DESTS[:8] + [".x"] * 4)}]}
     k = r.random()
     if k < 0.3:
         src = damage_json(r, src)
@@ -1152,6 +1233,7 @@ def gen_template_reconcile(r):
     store = []
     if r.random() < 0.85:
         s = json.loads(json.dumps(SOURCE))
+        s["spec"] = json.loads(json.dumps(SOURCE2["spec"]))
         if r.random() < 0.3:
             del s["metadata"]["labels"]
         store.append(s)
@@ -1432,7 +1514,8 @@ def gen_all(seed, tier):
     for t in offsets:
         add(gen_oci_truncation(entries, t)[:2])
 
-    for p in schema_corpus() + defect_corpus() + probe_shape_corpus() + controller_corpus() + include_corpus():
+    for p in (schema_corpus() + defect_corpus() + xvalidations_corpus() + source_results_corpus() + probe_shape_corpus() + controller_corpus()
+              + include_corpus()):
         add(p)
 
     n = 3000 if tier == "quick" else 196000
